@@ -143,6 +143,10 @@ fn check_sched(db: &LayoutDb, s: &Sched, idx: usize, seed: u64, sink: &Sink) {
 		};
 		sink.count(fnv(data) ^ fnv(format!("{:?}{}{}", s.chunks, s.skip, s.hash).as_bytes()), !s.chunks.is_empty());
 		sink.sample(|| json!({"chunks": s.chunks, "skip": s.skip, "hash": s.hash, "cut": {"seg": s.cut.seg, "where": s.cut.r#where}, "model_outcome": s.outcome, "version": ver, "file_len": built.bytes.len(), "given": data.len()}));
+		if s.hash && s.cut.r#where == "intact" && idx % 3 == 0 {
+			// history: a hashed read that fails (a truncated copy) on this thread just before the real one
+			let _ = read_frag(&data[..data.len() * 2 / 3], Frag::Sched(s.chunks.clone()), s.skip, true, None);
+		}
 		let shared = std::sync::Arc::new(data.to_vec());
 		let mut dog = Watchdog::new();
 		let (res, seeks, _) = match read_frag_guarded(&mut dog, Duration::from_secs(20), &shared, data.len(), Frag::Sched(s.chunks.clone()), s.skip, s.hash, None) {
@@ -269,6 +273,100 @@ fn deep_splits(db: &LayoutDb, seed: u64, nfiles: usize, all_offsets: bool, sink:
 	}
 }
 
+
+/// Boundary values of block-wise I/O: files whose SKIPPED span (Game Start .. last Game End) or whose TOTAL length is an
+/// exact multiple of a block size (512, 4096, 8192, 65536), or one byte off.  The span is tuned with an unknown event
+/// (declared in the payload table) right after Game Start.  Each file is read with all option combinations; hash,
+/// start/end/metadata and (full reads) the round trip must be as for any other file.  Before some of the good reads a
+/// hashed read of a truncated copy is made on the same thread (a failed read must leave nothing behind).
+fn block_boundaries(db: &LayoutDb, seed: u64, sink: &Sink) {
+	let blocks = [512usize, 4096, 8192, 16384, 65536, 131072];
+	let mut k = 0usize;
+	for (bi, blk) in blocks.iter().enumerate() {
+		for delta in [0i64, -1, 1] {
+			for mode in ["skip_span", "file_len"] {
+				k += 1;
+				let reg = ["C", "A", "B"][k % 3];
+				let mut beh = shaped_beh(reg, 1 + k % 2, k % 2 == 0, k % 3 != 0, k);
+				let ver = version_for(db, reg, k, seed);
+				let mut o = GenOpts::new(seed ^ 0xB10C ^ k as u64, ver);
+				o.plan = 1;
+				// measure without padding
+				let base = gen::build_beh(db, &beh, &o);
+				let last_ge = *base.ev_offs.last().unwrap();
+				let span = last_ge - base.events_start;
+				let cur = if mode == "skip_span" { span } else { base.bytes.len() };
+				let target = (*blk as i64 + delta) as usize;
+				let mut target = target;
+				while target < cur + 5 {
+					target += *blk;
+				}
+				// one or two unknown events (payload <= 65535 each); the table entry costs 3 bytes of file length
+				let mut pad = target - cur - if mode == "file_len" { 3 } else { 0 };
+				let mut evs = vec![];
+				while pad > 0 {
+					let take = pad.min(60000).max(2);
+					evs.push(take - 1);
+					pad -= take.min(pad);
+				}
+				if evs.len() > 1 || evs.iter().any(|s| *s == 0 || *s > 65535) {
+					// keep it to one event of one size (one table entry)
+					if target - cur > 65536 {
+						continue;
+					}
+				}
+				let size = evs[0];
+				o.unk_sizes.insert(0x40, size as u16);
+				beh.hist.insert(0, crate::gen::AEvent { k: "unk".into(), id: 0, p: 0, f: 0, x: 0x40, tok: 900000 });
+				let built = gen::build_beh(db, &beh, &o);
+				let got = if mode == "skip_span" { *built.ev_offs.last().unwrap() - built.events_start } else { built.bytes.len() };
+				if got != target {
+					continue; // could not hit the boundary exactly with one event
+				}
+				let want_hash = xxh3_hex(&built.bytes);
+				let cls = format!("regime:{},{}={}x{}{:+}", reg, mode, target / blk, blk, delta);
+				sink.sample(|| json!({"boundary": cls, "file_len": built.bytes.len(), "skipped_span": *built.ev_offs.last().unwrap() - built.events_start}));
+				let full = real::read_slp(&built.bytes, false, false);
+				for (skip, hash) in [(false, true), (true, true), (true, false), (false, false)] {
+					sink.count(fnv(&built.bytes) ^ ((skip as u64) << 1 | hash as u64) ^ bi as u64, true);
+					if (k + skip as usize) % 2 == 0 {
+						// history: a failed hashed read first
+						let _ = read_frag(&built.bytes[..built.bytes.len() / 2], Frag::Whole, skip, true, None);
+					}
+					let (res, seeks, _) = read_frag(&built.bytes, if k % 2 == 0 { Frag::Whole } else { Frag::Fixed(4096) }, skip, hash, None);
+					let mut viols = vec![];
+					match (&res, &full) {
+						(Outcome::Ok(g), Outcome::Ok(f)) => {
+							if hash && g.hash.as_deref() != Some(want_hash.as_str()) {
+								viols.push(viol("hash_value", &format!("{},skip={}", cls, skip), "mismatch", format!("hash {:?}, expected {}", g.hash, want_hash)));
+							}
+							if hash && seeks > 0 {
+								viols.push(viol("hash_seek", &cls, "mismatch", "seek while hashing".into()));
+							}
+							if !hash && g.hash.is_some() {
+								viols.push(viol("hash_value", &cls, "mismatch", "hash reported although not requested".into()));
+							}
+							if let Some(m) = same_meta(f, g) {
+								viols.push(viol("boundary_read", &format!("{},skip={},hash={}", cls, skip, hash), "mismatch", m));
+							}
+							if !skip {
+								if real::write_slp(g).ok() != real::write_slp(f).ok() {
+									viols.push(viol("boundary_read", &cls, "mismatch", "game differs".into()));
+								}
+							}
+						}
+						(o, Outcome::Ok(_)) => viols.push(viol("boundary_read", &format!("{},skip={},hash={}", cls, skip, hash), o.kind(), o.detail())),
+						_ => {}
+					}
+					for v in &viols {
+						sink.report(v, &|| json!({"boundary": cls, "skip": skip, "hash": hash, "ver": ver, "file_len": built.bytes.len()}));
+					}
+				}
+			}
+		}
+	}
+}
+
 pub fn cmd_sched(a: &Args) {
 	let db = LayoutDb::load(a.req("layout"));
 	let sink = Sink::new(a.get("replay-dir").unwrap_or("work/replays"));
@@ -287,6 +385,9 @@ pub fn cmd_sched(a: &Args) {
 	});
 	if a.has("splits") {
 		deep_splits(&db, seed, a.num("split-files", 3) as usize, a.has("all-offsets"), &sink);
+	}
+	if a.has("boundaries") {
+		block_boundaries(&db, seed, &sink);
 	}
 	sink.summary(json!({"schedules": n}));
 }
@@ -618,6 +719,18 @@ fn check_skip(beh: &Beh, built: &Built, sink: &Sink) {
 						}
 					}
 					o => viols.push(viol("slpp_skip_rewrite", &cls, o.kind(), o.detail())),
+				}
+				// ... and as .slpp again
+				match real::write_slpp(g2, Comp::Zstd) {
+					Outcome::Ok(a2) => match real::read_slpp(&a2, false) {
+						Outcome::Ok(g3) => {
+							if let Some(m) = same_meta(&full, &g3) {
+								viols.push(viol("slpp_skip_rewrite", &cls, "mismatch", format!("after .slpp -> skip -> .slpp: {}", m)));
+							}
+						}
+						o => viols.push(viol("slpp_skip_rewrite", &cls, o.kind(), format!("re-read of the re-written .slpp: {}", o.detail()))),
+					},
+					o => viols.push(viol("slpp_skip_rewrite", &cls, o.kind(), format!("writing the skip result as .slpp: {}", o.detail()))),
 				}
 			}
 			o => viols.push(viol("slpp_skip_read", &cls, o.kind(), o.detail())),
